@@ -235,7 +235,7 @@ theorem finish_shape (r : RState) (opt : Option EOpt) (tsig : Option Tsig) (a b 
       simp at h5; subst h5
       exact ⟨[], [], 0, ⟨rfl, rfl, rfl⟩, by simp [RState.releaseReserved], by simp [RState.releaseReserved], rfl, rfl, rfl, rfl⟩
     | some o =>
-      simp only [RState.addOpt, ne_eq, not_true_eq_false, if_false] at h5
+      simp only [addOpt_zero, RState.addOptCore, ne_eq, not_true_eq_false, if_false] at h5
       obtain ⟨p, hp, hs5⟩ := addRRset3_shape r.releaseReserved (optRRset o) r5 h5
       have hp1 := rrsetExt_one_count (by simp [optRRset]) hp
       subst hs5
